@@ -66,7 +66,7 @@ def seeded(args):
             continue
         try:
             props = PROPS if allchecks else sorted(set([meta["property"]] + meta.get("also_run", []) + meta.get("expected", [])))
-            res = [run_check(p) for p in props]
+            res = [run_check(p, tier=meta.get("expected_tier", "quick")) for p in props]
         finally:
             sh("git -C /repo checkout -- .")
         flagged = [x["prop"] for x in res if x["rc"] == 1]
